@@ -15,6 +15,7 @@ _cache: dict = {}
 
 class Kind:
     name = "?"
+    nullable = False   # for reference kinds: may the value be None (not part of the key)
 
     def key(self) -> str:
         return self.name
@@ -279,3 +280,43 @@ def f_neg(a):
     Fs = F()
     return z3.If(Fs.is_fin(a), Fs.fin(-Fs.r(a)),
                  z3.If(Fs.is_pinf(a), Fs.ninf, z3.If(Fs.is_ninf(a), Fs.pinf, Fs.nan)))
+
+
+def qforall(vs, body, patterns=None):
+    """ForAll with explicit patterns; patterns z3 rejects (they contain ite/arith) are dropped one by
+    one, falling back to z3's own trigger inference."""
+    if patterns:
+        good = [p for p in patterns if _pattern_ok(p, vs)]
+        if good:
+            try:
+                return z3.ForAll(vs, body, patterns=good)
+            except z3.Z3Exception:
+                pass
+    return z3.ForAll(vs, body)
+
+
+def _pattern_ok(p, vs):
+    """z3 patterns must be ite-free, non-ground applications."""
+    if isinstance(p, z3.PatternRef):
+        return True   # MultiPattern: let z3 decide
+    stack = [p]
+    seen = set()
+    ids = {v.get_id() for v in vs}
+    found = set()
+    while stack:
+        x = stack.pop()
+        i = x.get_id()
+        if i in seen:
+            continue
+        seen.add(i)
+        if i in ids:
+            found.add(i)
+        if z3.is_app(x):
+            k = x.decl().kind()
+            if k in (z3.Z3_OP_ITE, z3.Z3_OP_AND, z3.Z3_OP_OR, z3.Z3_OP_NOT, z3.Z3_OP_IMPLIES, z3.Z3_OP_EQ,
+                     z3.Z3_OP_LE, z3.Z3_OP_GE, z3.Z3_OP_LT, z3.Z3_OP_GT):
+                return False
+            stack.extend(x.children())
+    if isinstance(p, z3.PatternRef):
+        return True
+    return found == ids
